@@ -136,4 +136,9 @@ U(name="U.api.crypt", harness="harness/api_crypt.c", mode="H", profiles=["crypt"
 U(name="L.crypt.involution", harness="harness/lem_crypt.c", mode="P", props=["C12", "C04"])
 U(name="L.crypt.wrongpw", harness="harness/lem_crypt.c", mode="P", defines=["LEMMA_WRONGPW"], props=["C12"])
 
+U(name="U.api.encode", harness="harness/api_encode.c", mode="H", profiles=["encode"],
+  replace_calls=[("write_str", "contract_write_str")], object_bits=14,
+  functions=["polyseed_encode"], exact_loops=[("polyseed_encode", 0, 15)], unwind=POLYSEED_STR_SIZE_PLUS1,
+  props=["C03", "C01", "C05", "C13", "C16", "C17"], timeout=1800, mem_gb=32)
+
 BY_NAME = {u.name: u for u in UNITS}
